@@ -485,7 +485,7 @@ var xmlPlainTexts = []string{"Hello world", "2024-01-02T03:04:05Z", "Tom & Jerry
 
 // XMLWhereFirstURL lists the placements where the character data token STARTS with the URL and continues with other
 // characters (white space or prose): the class of the open finding about extractor.XML taking such a token whole.
-var XMLWhereFirstURL = map[string]bool{"text-trail": true, "prose-first": true, "cdata-trail": true}
+var XMLWhereFirstURL = map[string]bool{"text-trail": true, "prose-first": true, "cdata-trail": true, "text-list": true}
 
 type xmlGenState struct {
 	planted []DocURL
@@ -610,7 +610,7 @@ func (st *xmlGenState) textLeaf(t *rapid.T, depth int) XNode {
 	el := XNode{K: "elem", Name: pick(t, "xml.textleaf", st.v.textLeaves), Attrs: st.decoyAttrs(t)}
 	ent := rapid.IntRange(0, 2).Draw(t, "xml.ent")
 	ws := pick(t, "xml.ws", []string{"\n    ", " ", "\n", "\t", "\r\n  "})
-	switch where := pick(t, "xml.where", []string{"text", "text", "text", "text-pad", "text-lead", "text-trail", "prose-mid", "prose-first", "prose-last", "cdata", "cdata", "cdata-trail", "mixed", "mixed-before"}); where {
+	switch where := pick(t, "xml.where", []string{"text", "text", "text", "text-pad", "text-lead", "text-trail", "prose-mid", "prose-first", "prose-last", "cdata", "cdata", "cdata-trail", "mixed", "mixed-before", "text-list"}); where {
 	case "text":
 		el.Kids = []XNode{{K: "text", S: st.plant(t, depth, where, false), Ent: ent}}
 	case "text-pad":
@@ -625,6 +625,13 @@ func (st *xmlGenState) textLeaf(t *rapid.T, depth int) XNode {
 		el.Kids = []XNode{{K: "text", S: st.plant(t, depth, where, true) + " is the link", Ent: ent}}
 	case "prose-last":
 		el.Kids = []XNode{{K: "text", S: "link: " + st.plant(t, depth, where, true), Ent: ent}}
+	case "text-list":
+		// a white-space separated list of URLs in one text node (the token starts with a URL and more follow)
+		txt := st.plant(t, depth, where, true)
+		for i, n := 0, rapid.IntRange(1, 3).Draw(t, "xml.listn"); i < n; i++ {
+			txt += ws + st.plant(t, depth, "text-list-next", true)
+		}
+		el.Kids = []XNode{{K: "text", S: txt, Ent: ent}}
 	case "cdata":
 		el.Kids = []XNode{{K: "cdata", S: st.plant(t, depth, where, false)}}
 	case "cdata-trail":
